@@ -75,12 +75,20 @@ def _digest_ts(ts):
     return h.hexdigest()
 
 
-def build_kwargs(cfg):
+def build_kwargs(cfg, ts=None):
     kw = dict(mutation_rate=cfg["mu"], method=cfg["method"], record_provenance=False)
     if cfg["method"] == "variational_gamma":
         kw.update(max_iterations=cfg["iters"], rescaling_intervals=cfg["rescale"], singletons_phased=cfg["phased"])
     else:
-        kw.update(population_size=cfg["ne"], eps=cfg["eps"], probability_space=cfg["space"])
+        kw.update(eps=cfg["eps"], probability_space=cfg["space"])
+        if cfg.get("approx") and ts is not None:
+            # approximate (interpolated) coalescent priors from a small lookup table: exercises the
+            # on-disk/in-memory prior tables that default use only reaches above 10 000 samples
+            kw["priors"] = tsdate.build_prior_grid(ts, population_size=cfg["ne"], approximate_priors=True,
+                                                   approx_prior_size=cfg["approx"],
+                                                   prior_distribution=cfg.get("dist", "lognorm"))
+        else:
+            kw["population_size"] = cfg["ne"]
         if cfg.get("num_threads") is not None:
             kw["num_threads"] = cfg["num_threads"]
     return kw
@@ -95,8 +103,25 @@ def cfg_strategy(draw, method=None):
                    phased=draw(st.booleans()))
     else:
         cfg.update(ne=10.0 ** draw(st.integers(0, 4)), eps=10.0 ** draw(st.integers(-8, -2)),
-                   space=draw(st.sampled_from(["linear", "logarithmic"])))
+                   space=draw(st.sampled_from(["linear", "logarithmic"])),
+                   approx=draw(st.sampled_from([None, None, 6, 12, 30])),
+                   dist=draw(st.sampled_from(["lognorm", "gamma"])))
     return cfg
+
+
+@st.composite
+def interference(draw, cfg):
+    """a different call on the same input, made between the two identical calls: any state that
+    leaks from one call into the next (module-level memo, cache, mutated argument) shows up"""
+    other = dict(cfg)
+    if cfg["method"] == "variational_gamma":
+        other.update(iters=cfg["iters"] % 5 + 1, phased=True, rescale=0)
+    else:
+        other.update(approx=draw(st.sampled_from([6, 12, 30, None])), ne=cfg["ne"] * draw(st.sampled_from([1.0, 3.0])),
+                     space=draw(st.sampled_from(["linear", "logarithmic"])),
+                     dist=draw(st.sampled_from(["lognorm", "gamma"])),
+                     method=draw(st.sampled_from(["inside_outside", "maximization"])))
+    return other
 
 
 @st.composite
@@ -106,7 +131,7 @@ def repeat_case(draw, tier):
     if cfg["method"] == "variational_gamma" and not cfg["phased"]:
         ts = G.add_individuals(ts, [2])
     threads = draw(st.sampled_from([[None, 1], [None, 1], [None, 1, 2], [None, 2, 4] if tier == "thorough" else [None, 2]]))
-    return dict(kind="repeat", ts=ts, cfg=cfg, threads=threads)
+    return dict(kind="repeat", ts=ts, cfg=cfg, threads=threads, other=draw(interference(cfg)))
 
 
 @st.composite
@@ -142,13 +167,19 @@ def check(case, ctx):
 def check_repeat(case, ctx):
     ts, cfg = case["ts"], dict(case["cfg"])
     ctx.label("repeat", "method=" + cfg["method"])
-    status, first = call(tsdate.date, ts, **build_kwargs(cfg))
+    status, first = call(lambda: tsdate.date(ts, **build_kwargs(cfg, ts)))
     if status != "ok":
         ctx.discard(("rejected:" if status == "rejected" else "internal:") + exc_key(first))
         return []
-    status, second = call(tsdate.date, ts, **build_kwargs(cfg))
+    if case.get("other"):
+        call(lambda: tsdate.date(ts, **build_kwargs(case["other"], ts)))  # outcome irrelevant
+        ctx.label("interfering_call")
+        if cfg.get("approx"):
+            ctx.label("approximate_priors")
+    status, second = call(lambda: tsdate.date(ts, **build_kwargs(cfg, ts)))
     if status != "ok" or not outputs_equal(first, second):
-        return [Violation(f"repeat:differs:{cfg['method']}", "two identical calls in one process gave different tables")]
+        return [Violation(f"repeat:differs:{cfg['method']}", "the same call gave different tables the second time "
+                          "(another call on the same input was made in between)")]
     if cfg["method"] == "variational_gamma":
         return []
     # thread counts
@@ -158,7 +189,7 @@ def check_repeat(case, ctx):
     for nt in case["threads"]:
         c2 = dict(cfg, num_threads=nt)
         ctx.label(f"num_threads={nt}")
-        status, res = call(tsdate.date, ts, **build_kwargs(c2))
+        status, res = call(lambda: tsdate.date(ts, **build_kwargs(c2, ts)))
         if status != "ok":
             return [Violation(f"threads:raises:{cfg['method']}:{type(res).__name__}",
                               f"num_threads={nt} raised {res!r} while the default run returned")]
@@ -265,6 +296,20 @@ def extra(ctx, tier, shard):
         cases.append(c)
 
     collect()
+    # twins: for every discrete-method call a second call on the SAME input that differs only in
+    # how the prior is parameterised (lookup-table size / distribution). The processes run the batch
+    # in different orders, so a twin runs before its sibling in one process and after it in another:
+    # state leaking between calls that agree on (input, sample count) but not on these options
+    # gives different digests.
+    twins = []
+    for c in cases:
+        cfg = c["cfg"]
+        if cfg["method"] == "variational_gamma":
+            continue
+        if not cfg.get("approx"):
+            cfg["approx"] = 12
+        twins.append(dict(c, cfg=dict(cfg, approx={6: 30, 12: 6, 30: 12}[cfg["approx"]])))
+    cases = cases + twins
     d = tempfile.mkdtemp(prefix="c09p", dir=os.path.join(ROOT, ".cache"))
     try:
         local = {}
@@ -272,16 +317,18 @@ def extra(ctx, tier, shard):
             c["ts"].dump(os.path.join(d, f"{i}.trees"))
             with open(os.path.join(d, f"{i}.json"), "w") as f:
                 json.dump(c["cfg"], f)
-            status, res = call(tsdate.date, c["ts"], **build_kwargs(c["cfg"]))
+            status, res = call(lambda: tsdate.date(c["ts"], **build_kwargs(c["cfg"], c["ts"])))
             local[str(i)] = _digest_ts(res) if status == "ok" else f"{status}:{type(res).__name__}"
         hashseeds = ["0", "1", str(shard_seed(ctx.seed, 77) % 4294967295)]
         if tier == "thorough":
             hashseeds.append("random")
         procs = []
-        for hs in hashseeds:
+        for k, hs in enumerate(hashseeds):
             env = dict(os.environ, PYTHONHASHSEED=hs)
             env.pop("LD_PRELOAD", None)
-            procs.append((hs, subprocess.Popen([sys.executable, "-m", "vt.props.c09_worker", d, str(len(cases))],
+            # each process runs the batch in a different order (as given, reversed, rotated ...): a result
+            # that depends on which calls were made before it in the same process differs between them
+            procs.append((hs, subprocess.Popen([sys.executable, "-m", "vt.props.c09_worker", d, str(len(cases)), str(k)],
                                                env=env, cwd=ROOT, stdout=subprocess.PIPE, stderr=subprocess.PIPE, text=True)))
         results = {}
         for hs, pr in procs:
